@@ -154,6 +154,76 @@ pub fn guarded<T>(f: impl FnOnce() -> T) -> Result<T, PanicRec> {
     }
 }
 
+// ---------------------------------------------------------------- in-process watchdog
+//
+// Quiescence test for "never deadlocks": a case that has been running for `quiet_after_s` while every
+// other thread of the process is sleeping and no CPU time is consumed over two samples 2 s apart is a
+// deadlock (violation, with the case identity for replay). A case that is still burning CPU after
+// `case_timeout_s` is abandoned as inconclusive. Wall-clock alone never yields a violation.
+
+use std::sync::atomic::{AtomicU64, Ordering as AO};
+
+static CASE_START_MS: AtomicU64 = AtomicU64::new(0);
+static CASE_INFO: Mutex<Option<(String, String, u64, u64, String)>> = Mutex::new(None); // prop, kind, idx, seed, tier
+
+fn now_ms() -> u64 { std::time::SystemTime::now().duration_since(std::time::UNIX_EPOCH).map(|d| d.as_millis() as u64).unwrap_or(0) }
+
+fn thread_sample(skip_tid: i64) -> Vec<(i64, char, u64)> {
+    let mut v = vec![];
+    if let Ok(rd) = std::fs::read_dir("/proc/self/task") {
+        for e in rd.flatten() {
+            let tid: i64 = e.file_name().to_string_lossy().parse().unwrap_or(-1);
+            if tid == skip_tid { continue }
+            if let Ok(st) = std::fs::read_to_string(e.path().join("stat")) {
+                if let Some(rest) = st.rsplit(')').next() {
+                    let f: Vec<&str> = rest.split_whitespace().collect();
+                    if f.len() > 13 {
+                        let state = f[0].chars().next().unwrap_or('?');
+                        let cpu = f[11].parse::<u64>().unwrap_or(0) + f[12].parse::<u64>().unwrap_or(0);
+                        v.push((tid, state, cpu));
+                    }
+                }
+            }
+        }
+    }
+    v.sort();
+    v
+}
+
+pub fn spawn_watchdog(quiet_after_s: u64, case_timeout_s: u64) {
+    std::thread::spawn(move || {
+        let my_tid: i64 = std::fs::read_link("/proc/thread-self").ok().and_then(|p| p.file_name().map(|f| f.to_string_lossy().parse().unwrap_or(-1))).unwrap_or(-1);
+        loop {
+            std::thread::sleep(std::time::Duration::from_millis(1000));
+            let st = CASE_START_MS.load(AO::SeqCst);
+            if st == 0 { continue }
+            let run_s = now_ms().saturating_sub(st) / 1000;
+            if run_s < quiet_after_s { continue }
+            let a = thread_sample(my_tid);
+            std::thread::sleep(std::time::Duration::from_millis(2000));
+            if CASE_START_MS.load(AO::SeqCst) != st { continue } // the case finished meanwhile
+            let b = thread_sample(my_tid);
+            let quiet = !a.is_empty() && a.len() == b.len() && a.iter().zip(b.iter()).all(|(x, y)| x.0 == y.0 && x.2 == y.2 && x.1 == 'S' && y.1 == 'S');
+            let info = CASE_INFO.lock().unwrap_or_else(|e| e.into_inner()).clone();
+            let Some((prop, kind, idx, seed, tier)) = info else { continue };
+            if quiet {
+                let line = json!({"t": "violation", "property": prop, "key": format!("{prop}/deadlock"),
+                    "what": format!("the call has not returned after {run_s} s: all {} threads are sleeping and no CPU time was consumed over 2 s (quiescent: deadlock)", a.len()),
+                    "kind": kind, "idx": idx, "case_seed": seed.to_string(), "tier": tier,
+                    "witness": {"thread_states": b.iter().map(|x| format!("{}:{}", x.0, x.1)).collect::<Vec<_>>()}});
+                println!("{}", line);
+                println!("{}", json!({"t": "abort", "reason": "deadlock", "case": format!("{kind}#{idx}")}));
+                let _ = std::io::stdout().flush();
+                std::process::exit(0);
+            } else if run_s >= case_timeout_s {
+                println!("{}", json!({"t": "abort", "reason": "case_timeout", "case": format!("{kind}#{idx}"), "case_seed": seed.to_string(), "ran_s": run_s}));
+                let _ = std::io::stdout().flush();
+                std::process::exit(0);
+            }
+        }
+    });
+}
+
 // ---------------------------------------------------------------- context
 
 pub struct Ctx {
@@ -234,10 +304,13 @@ impl Ctx {
         self.cur_idx = idx;
         self.cur_seed = seed;
         let mut rng = Rng::new(seed);
+        *CASE_INFO.lock().unwrap_or_else(|e| e.into_inner()) = Some((self.prop.clone(), kind.to_string(), idx, seed, if self.quick() { "quick".into() } else { "thorough".into() }));
+        CASE_START_MS.store(now_ms().max(1), AO::SeqCst);
         let r = {
             let me: &mut Ctx = self;
             guarded(move || f(me, &mut rng))
         };
+        CASE_START_MS.store(0, AO::SeqCst);
         if self.replay.is_none() && self.elapsed() - self.last_checkpoint > 5.0 {
             self.last_checkpoint = self.elapsed();
             self.emit_stats("checkpoint", false);
